@@ -117,6 +117,25 @@ def main():
     check('t_mem', len(rets) == 1 and rets[0][3] == ('tup', (fld(S('s'), 'a'), fld(S('s'), 'b'), I(9))), 'replace then swap: (old a, b, 9); got %s' % (rets[0][2] if rets else None))
     o = run('t_handwritten_eq', []); rets = [x for x in o if x[0] == 'ret']
     check('t_handwritten_eq', len(rets) == 1 and rets[0][3] == ('tup', (('bool', True), ('bool', False), ('bool', False))), 'hand-written eq inlined (P==Q true, Q==P false, P!=Q false); got %s' % [x[2] for x in rets])
+    o = run('t_extend', ['a', 'b', 'c']); rets = [x for x in o if x[0] == 'ret']
+    check('t_extend', len(rets) == 1 and rets[0][3] == ('vec', (S('c'), S('a'), S('b'))), 'extend appends the helper-built elements in order: [c, a, b]; got %s' % [x[2] for x in rets])
+    o = run('t_as_bytes', ['id']); rets = [x for x in o if x[0] == 'ret']
+    check('t_as_bytes', len(rets) == 1 and rets[0][3][0] == 'tup' and rets[0][3][1][0] == rets[0][3][1][1], 'str::as_bytes via a helper and String::as_bytes give the same origin term; got %s' % [x[2] for x in rets])
+    o = run('t_lazy_or', ['x', 'a', 'b']); rets = [x for x in o if x[0] == 'ret']
+    check('t_lazy_or', sorted(P(x[3]) for x in rets) == ['0', '1', '1'], 'three paths: (x==a) -> 1, (x!=a, x==b) -> 1, neither -> 0; got %s' % [(x[1], x[2]) for x in rets])
+    # engine: equalities implied by order facts (total order): b<a false, m==a, m<b false ==> a==b
+    import engine as _e
+    class _PV(_e.PathView):
+        def __init__(self, facts): self._f = [(f, None, None) for f in facts]; self._impl_eq = None
+        facts = property(lambda self: self._f)
+    A, B, M_ = ('dec', S('a')), ('dec', S('b')), ('dec', S('m'))
+    ie = _PV([('val', ('lt', B, A), False), ('val', _e.EQ(M_, A), True), ('val', ('lt', M_, B), False)]).implied_equalities()
+    pairs = set(frozenset(x) for x in ie)
+    check('implied_equalities', frozenset((A, B)) in pairs, 'a<=b, m==a, m>=b must imply a==b; got %s' % ie)
+    ie = _PV([('val', ('lt', B, A), False), ('val', _e.EQ(M_, A), True)]).implied_equalities()
+    check('implied_equalities', not ie, 'a<=b, m==a implies no new equality; got %s' % ie)
+    ie = _PV([('val', ('lt', A, B), True), ('val', _e.EQ(M_, A), True), ('val', ('lt', M_, B), False)]).implied_equalities()
+    check('implied_equalities', not ie, 'an inconsistent set implies nothing (no model): got %s' % ie)
     print('interpreter self-test: %d checks, %d failures' % (n, len(fails)))
     for f in fails: print('  FAIL', f)
     return 1 if fails else 0
